@@ -75,4 +75,49 @@ def restartRun (prog : List (Nat × List Rat × Rat)) (callArg : Nat) (tout : Ra
 /-- the linear map of the loop body on (tout, sum_t, last): images of the unit vectors and of 0 (constant part) -/
 def bodyOn (prog : List (Nat × List Rat × Rat)) (v : Env) : Env := restartBody prog v
 
+/-! ### CVODE driver: the last-good-state hook of `CVStep` and the hand-off to a re-started call
+
+`CVStep` (cvode.cpp) loops over attempts.  At the top of every attempt the engine records the pair
+(`cvode_last_good_time`, `cvode_last_good_y`) from which `run_reactions` re-starts when the CVode call gives up.  A failed attempt is
+undone by `CVRestore` (time and Nordsieck array `zn` go back), but the work vector `y` keeps the failed corrector iterate. -/
+
+/-- state of one CVode call; `accepted` is a ghost history of (time, solution) pairs the integrator has accepted -/
+structure Cv where
+  tn : Rat
+  zn0 : Rat
+  y : Rat
+  lastT : Rat
+  lastY : Rat
+  accepted : List (Rat × Rat)
+
+/-- one attempt of CVStep: `save` says which vector the hook stores (0 = zn[0], 1 = y); the attempt tries a step `h`, the
+corrector produces `ynew`, `ok` is the outcome of the convergence and error tests -/
+def cvAttempt (save : Nat) (s : Cv) (a : Rat × Rat × Bool) : Cv × Bool :=
+  let s := { s with lastT := s.tn, lastY := if save = 0 then s.zn0 else s.y }
+  if a.2.2 then
+    ({ s with tn := s.tn + a.1, zn0 := a.2.1, y := a.2.1, accepted := (s.tn + a.1, a.2.1) :: s.accepted }, true)
+  else
+    ({ s with y := a.2.1 }, false)
+
+/-- CVStep: attempts until one passes (or the list of attempts ends: the call gives up) -/
+def cvStep (save : Nat) : Cv → List (Rat × Rat × Bool) → Cv
+  | s, [] => s
+  | s, a :: rest =>
+    let r := cvAttempt save s a
+    if r.2 then r.1 else cvStep save r.1 rest
+
+/-- a CVode call: a sequence of CVStep calls -/
+def cvCall (save : Nat) (s : Cv) (steps : List (List (Rat × Rat × Bool))) : Cv :=
+  steps.foldl (cvStep save) s
+
+/-- start of a call at time 0 with solution `y0` -/
+def cvInit (y0 : Rat) : Cv := { tn := 0, zn0 := y0, y := y0, lastT := 0, lastY := y0, accepted := [(0, y0)] }
+
+/-- the restart loop with its call counter: `lasts` are the times reached by the successive failed calls; gives up
+(`none`) when `++m_iter >= bad_step_max` (or `>`) -/
+def restartLimited (prog : List (Nat × List Rat × Rat)) (callArg : Nat) (stopsAtGe : Bool) (badStepMax : Nat) (tout : Rat)
+    (lasts : List Rat) : Option (Rat × Rat) :=
+  let stops (mIter : Nat) : Bool := if stopsAtGe then badStepMax ≤ mIter else badStepMax < mIter
+  if (List.range lasts.length).any (fun i => stops (i + 1)) then none else some (restartRun prog callArg tout lasts)
+
 end PhreeqcVerif.KinTime
